@@ -1374,7 +1374,8 @@ class RTCSctpTransport(AsyncIOEventEmitter):
                 # mark closed streams
                 for stream_id in self._reconfig_request.streams:
                     self._outbound_stream_seq.pop(stream_id, None)
-                    self._data_channel_closed(stream_id)
+                    if stream_id in self._data_channels:
+                        self._data_channel_closed(stream_id)
 
                 self._reconfig_request = None
                 await self._transmit_reconfig()
